@@ -129,10 +129,11 @@ func (o *Opaque) Twice(x int) int { return 2 * x }
 
 // ---- a loop fragment of a function that cannot be translated as a whole ---------------------------------
 
-func WithFrag(m map[string]int, n int) int {
-	total := len(m)
+func WithFrag(s []int, n int) int {
+	m := map[int]int{len(s): n}
+	total := len(s)
 	for i := 0; i < n; i++ {
 		total += i
 	}
-	return total
+	return total + len(m) - 1
 }
